@@ -22,7 +22,7 @@ pub fn judge(dir: &Path, sc: &Scenario, obs: &mut Obs) -> Judge {
         }
     }
     // a stale or duplicate ACK must not end the transfer: with an honest peer afterwards it completes
-    let harmless_script = sc.script.iter().all(|e| matches!(e, Sev::Pass | Sev::Hold | Sev::DropPending | Sev::At(_) | Sev::AckFull | Sev::AckPartial(_) | Sev::AckDup(_) | Sev::DataDup(_) | Sev::DataFuture(_) | Sev::StrayAck(_)));
+    let harmless_script = sc.script.iter().all(|e| matches!(e, Sev::Pass | Sev::Hold | Sev::DropPending | Sev::At(_) | Sev::AckFull | Sev::AckPartial(_) | Sev::AckDup(_) | Sev::DataDup(_) | Sev::DataFuture(_) | Sev::StrayAck(_) | Sev::Garbage(_) | Sev::StrayData(_) | Sev::Oack));
     // the OACK handshake itself is outside the property (C04/C08 speak about the data phase): it must not be disturbed
     let handshake_intact = !sc.handshake || matches!(sc.script.first(), Some(Sev::Pass) | None);
     if harmless_script && handshake_intact && sc.after == After::Honest && sc.fates.is_empty() && fa.max_failed_per_window < 6 && sc.dally {
@@ -51,6 +51,10 @@ fn sender_sev() -> BoxedStrategy<Sev> {
         2 => Just(Sev::AckFull),
         3 => any::<u16>().prop_map(Sev::AckPartial),
         6 => prop_oneof![6 => 0u16..3, 2 => 0u16..40, 1 => any::<u16>()].prop_map(Sev::AckDup),
+        // datagrams that are neither ACK nor ERROR: they must not trigger a transmission either
+        1 => proptest::collection::vec(any::<u8>(), 0..6).prop_map(Sev::Garbage),
+        1 => any::<u16>().prop_map(Sev::StrayData),
+        1 => Just(Sev::Oack),
     ]
     .boxed()
 }
